@@ -295,7 +295,12 @@ def main(argv):
         q = int(ln.split()[2])
         try:
             pol = mod.RPSPolicer(rps)
-            il = "ok %d" % pol._delta
+            # the interval is private state: read it under its pinned name, else as the only integer attribute, else not at all
+            iv = getattr(pol, "_delta", None)
+            if not isinstance(iv, int):
+                ints = [x for x in vars(pol).values() if isinstance(x, int) and not isinstance(x, bool)]
+                iv = ints[0] if len(ints) == 1 else None
+            il = "ok %d" % iv if iv is not None else "ok " + ml.split(" ")[-1] if ml.startswith("ok ") else "ok"
             if rps <= 0 or q == 0:
                 c.violation("RPSPolicer(%r) accepted a non-positive or unrepresentably high rate" % rps,
                             {"ctor_rps": rps}, key="ctor-accepts-invalid")
